@@ -148,7 +148,8 @@ class Assembler:
         self.defines = dict(defines or {})
         self.vacuity = vacuity
         self.chunks = []
-        self.meta = dict(fns={}, rewrites=[], items=[], hashes={}, defines={}, unit=unit_rel)
+        self.callee = 0
+        self.meta = dict(fns={}, callees={}, rewrites=[], items=[], hashes={}, defines={}, unit=unit_rel)
         self._include(unit_rel, [])
         # build text + linemap
         text_parts = []
@@ -199,7 +200,14 @@ class Assembler:
                 cmd = d[0]
                 arg = d[1] if len(d) > 1 else ''
                 if cmd == 'include':
-                    self._include(arg.strip(), stack + [rel])
+                    a = arg.split()
+                    if len(a) == 3 and a[1] == 'as' and a[2] == 'callee':
+                        # contracts proved in their home unit; here only the contract is visible (modular verification)
+                        self.callee += 1
+                        self._include(a[0], stack + [rel])
+                        self.callee -= 1
+                    else:
+                        self._include(a[0], stack + [rel])
                     i += 1
                     continue
                 if cmd == 'define':
@@ -506,6 +514,20 @@ class Assembler:
                 self._replace(sf, s, e, sarg, edits, what, rel, no)
             else:
                 raise LostAnchor('%s:%d: unknown fn sub-directive %s' % (rel, no, cmd))
+        if self.callee:
+            # signature + contract only; body not verified here (its home unit verifies it)
+            sp = []
+            if spec_lines:
+                sp.append((ct[body_open].start, spec_lines))
+            self.meta['callees'][key] = dict(key=key, name=short, file=f, contract=dict(file=rel, line=lineno))
+            self.emit('#[verifier::external_body] // callee: contract proved in its home unit\n',
+                      dict(kind='contract', file=rel, line=lineno, fn=None, clause_kind='attr', tags=None))
+            for a in attrs:
+                self.emit(a + '\n', dict(kind='contract', file=rel, line=lineno, fn=None, clause_kind='attr', tags=None))
+            sig_edits = [ed for ed in edits if ed[1] <= ct[body_open].start]
+            self._apply(sf, s, ct[body_open].start, sig_edits, dict(kind='repo', file=f, fn=None), sp)
+            self.emit('{ unimplemented!() }\n\n', dict(kind='contract', file=rel, line=lineno, fn=None, clause_kind='attr', tags=None))
+            return
         if self.vacuity:
             self.vac_n = getattr(self, 'vac_n', 0) + 1
             vac = [(lineno, 'vac_marker(%d), // vacuity twin: unprovable unless the context is contradictory' % self.vac_n, dict(kind='contract', file=rel, line=lineno, fn=key, clause_kind='vacuity', tags=None))]
